@@ -145,6 +145,7 @@ def handle (j : Json) : Except String Json := do
     pure (Json.mkObj [
       ("of_type", jTexts (Files.ofType ns (txt m) (txt e))),
       ("lex", optName (Files.recycleChoiceLex ns (txt m) (txt e))),
+      ("lenlex", optName (Files.recycleChoiceLenLex ns (txt m) (txt e))),
       ("latest", optName (Files.recycleChoice ns (txt m) (txt e)))])
   | "generate_document" =>
     let ps ← parseEntries j "params"
